@@ -196,7 +196,9 @@ type splitAlt struct {
 	parts []*Str
 }
 
-func (c *Ctx) splitRec(s *Str, sep *Str, n int, budget *int) []splitAlt {
+// splitRec enumerates the ways sep can occur in s (first occurrence first). ctx is the guard accumulated so far;
+// when feas is non-nil, alternatives whose guard is infeasible under the path condition are pruned early.
+func (c *Ctx) splitRec(s *Str, sep *Str, n int, budget *int, ctx *Term, feas func(*Term) bool) []splitAlt {
 	tt := c.tt
 	if n == 1 {
 		return []splitAlt{{tt.T, []*Str{s}}}
@@ -209,13 +211,13 @@ func (c *Ctx) splitRec(s *Str, sep *Str, n int, budget *int) []splitAlt {
 			continue
 		}
 		g := tt.And(none, m)
-		if !g.IsFalse() {
+		if !g.IsFalse() && (feas == nil || feas(tt.And(ctx, g))) {
 			head := &Str{b: s.b[:i]}
 			nn := n - 1
 			if n < 0 {
 				nn = n
 			}
-			for _, r := range c.splitRec(&Str{b: s.b[i+len(sep.b):]}, sep, nn, budget) {
+			for _, r := range c.splitRec(&Str{b: s.b[i+len(sep.b):]}, sep, nn, budget, tt.And(ctx, g), feas) {
 				*budget--
 				if *budget < 0 {
 					panic(engineErr("UNMODELLED strings.Split: too many alternatives (reduce the string bound)"))
@@ -228,7 +230,7 @@ func (c *Ctx) splitRec(s *Str, sep *Str, n int, budget *int) []splitAlt {
 			break
 		}
 	}
-	if !none.IsFalse() {
+	if !none.IsFalse() && (feas == nil || feas(tt.And(ctx, none))) {
 		out = append(out, splitAlt{none, []*Str{s}})
 	}
 	return out
@@ -253,7 +255,11 @@ func (c *Ctx) doSplit(st *State, sv, sepv Value, n int) Value {
 		}
 		budget := 5000
 		var alts []Alt
-		for _, sa := range c.splitRec(s, sep, n, &budget) {
+		var feas func(*Term) bool
+		if len(s.b) > 6 && n < 0 {
+			feas = func(g *Term) bool { return c.feasible(st, g) }
+		}
+		for _, sa := range c.splitRec(s, sep, n, &budget, c.tt.T, feas) {
 			alts = append(alts, Alt{sa.g, c.strSliceValue(st, sa.parts)})
 		}
 		return c.mkUnion(alts)
